@@ -81,6 +81,8 @@ def run_case(ctx, mr, case):
         ctx.stat('dpfs_model_reads', len(reads))
     c.close()
     sc.heal_neighbour_case(ctx, case, rng, img, info, payloads, geom)
+    if rng.random() < 0.5:
+        sc.positioned_case(ctx, case, random.Random(geom['seed'] ^ 0x51A7), img, info, payloads, geom, write=False)
     # 3. corruption x read history
     for _ in range(case['corruptions']):
         pi = rng.randrange(len(info['partitions']))
@@ -129,6 +131,15 @@ def run_case(ctx, mr, case):
             ctx.diff('oracle', 'save-open-raises', dict(case, pos=pos), 'a reader', pyenv.errname(ex), 'corrupted data/hash block made the container unopenable')
             continue
         r = sc.lv4_reader(c, pi)
+        if what == 'data':
+            # the verified reader in every spelling its constructor has (verification is on in all of them; a damaged DATA block fails
+            # its own hash, so the shallow check catches it as well)
+            from pyctr.type.save.partdesc.ivfc import IVFCLevel4Reader
+            tree = c.partitions[pi].ivfc_hash_tree
+            spell = rng.randrange(6)
+            ctx.stat('lv4_reader_spelling_%d' % spell)
+            r = (r, IVFCLevel4Reader(tree), IVFCLevel4Reader(tree, True), IVFCLevel4Reader(tree, True, True), IVFCLevel4Reader(tree, True, False),
+                 IVFCLevel4Reader(tree, deep_verify=False))[spell]
         bs4 = ip['block_sizes'][3]
         hist = read_history(rng, len(want), bs4, rng.choice([0, 1, 3, 6]))
         # prior history: read other blocks first (populates the verification caches), results must already be right
